@@ -1214,7 +1214,11 @@ func (k *Kernel) checkVotingPrecommitViewShift(ctx context.Context, s *kState) e
 
 // saveCurrentCommittingHeader saves s.CommittingHeader to the header store.
 func (k *Kernel) saveCurrentCommittingHeader(ctx context.Context, s *kState) error {
-	proof := s.Voting.PrevCommitProof
+	// The store must get its own copy:
+	// the voting view's maps are cleared in place when the view is recycled
+	// (after a round change the view object becomes the next round view, which is reset at the next height),
+	// and a store that keeps references, like the in-memory one, would lose the proof.
+	proof := s.Voting.PrevCommitProof.Clone()
 
 	// TODO: gassert: confirm the voting proof is sufficient.
 
